@@ -16,7 +16,7 @@ out=['# Seeded changes (independent sub-agents) and the quick checks that report
 for r in rows: out.append(f"| {r[0]} | {r[1]} | {r[2]} | {r[3]} | {r[4]} | {' '.join(r[5]) or '**none**'} |")
 n=len(rows); own=sum(1 for r in rows if r[2] in r[5]); anyc=sum(1 for r in rows if r[5])
 byr=collections.Counter(r[1] for r in rows)
-out+=['',f'{n} seeded changes ({", ".join(f"round {k}: {v}" for k,v in sorted(byr.items()))}); caught by at least one quick check: {anyc}; caught by the quick check of the property they target: {own}.']
+out+=['',f'{n} seeded changes ({", ".join(f"round {k}: {v}" for k,v in sorted(byr.items(), key=lambda kv: int(kv[0])))}); caught by at least one quick check: {anyc}; caught by the quick check of the property they target: {own}.']
 miss=[r[0] for r in rows if r[2] not in r[5]]
 out+=['','Not caught by their own property\'s quick check (but by another one): '+(', '.join(miss) or 'none')]
 open('/verif/validation/seeds.md','w').write('\n'.join(out)+'\n')
